@@ -105,8 +105,194 @@ def view_discus(s):
     return toks
 
 
-VIEWS = {"xyz": view_xyz, "rawxyz": view_rawxyz, "pdffit": view_pdffit, "discus": view_discus}
-RAW_VIEWS = {"pdffit": lambda s: view_pdffit(s, raw=True)}
+def pdb_iso(s, a):
+    return not s.lattice.isanisotropic(a.U)
+
+
+def view_pdb(s):
+    toks = [s.title] + [exact(x) for x in s.lattice.abcABG()]
+    for a in s:
+        c, U = a.xyz_cartn, a.U
+        toks += [a.label or a.element, a.element, exact(c[0]), exact(c[1]), exact(c[2]), exact(a.occupancy), exact(a.Bisoequiv),
+                 "1" if pdb_iso(s, a) else "0"]
+        # the writer rounds the doubles 1e4 * U[i,j]: the products are part of the view
+        toks += [exact(x) for x in 1e4 * numpy.array([U[0, 0], U[1, 1], U[2, 2], U[0, 1], U[0, 2], U[1, 2]])]
+    return toks
+
+
+def view_pdb_read(s):
+    """What the reader assigned, in the layout of the model's read answer ('?' = not observable)."""
+    cell = tuple(s.lattice.abcABG())
+    has = cell != (1.0, 1.0, 1.0, 90.0, 90.0, 90.0)
+    toks = [s.title, "1" if has else "0"] + [exact(x) for x in cell]
+    for a in s:
+        c, U = a.xyz_cartn, a.U
+        toks += [a.label, a.element, exact(c[0]), exact(c[1]), exact(c[2]), exact(a.occupancy), "?",
+                 "?" if a.anisotropy else exact(a.Bisoequiv), "1" if a.anisotropy else "0"]
+        if a.anisotropy:
+            toks += [exact(1e4 * x) for x in (U[0][0], U[1][1], U[2][2], U[0][1], U[0][2], U[1][2])]
+        else:
+            toks += ["0"] * 6
+    return toks
+
+
+XCFG_REGEN = __import__("re").compile(r"(occupancy|[BU]iso|[BU][123][123])$")
+
+
+def xcfg_box(s):
+    """Box size A and shift of the XCFG writer: a line-by-line mirror of the numpy expressions of P_xcfg.toLines
+    (these doubles are inputs of the model, which covers their printing and everything after them)."""
+    allxyz = numpy.array([a.xyz for a in s])
+    lo_xyz = allxyz.min(axis=0)
+    hi_xyz = allxyz.max(axis=0)
+    max_range_xyz = (hi_xyz - lo_xyz).max()
+    if numpy.allclose(s.lattice.abcABG(), (1, 1, 1, 90, 90, 90)):
+        max_range_xyz += 2
+    p_A = numpy.ceil(max_range_xyz + 1.0e-13)
+    hi_ucvect = max([numpy.sqrt(numpy.dot(v, v)) for v in s.lattice.base])
+    if hi_ucvect * p_A < 3.5:
+        p_A = numpy.ceil(3.5 / hi_ucvect)
+    p_dxyz = numpy.zeros(3, dtype=float)
+    for i in range(3):
+        if lo_xyz[i] / p_A < 0.0 or hi_xyz[i] / p_A >= 1.0 or (lo_xyz[i] == hi_xyz[i] and lo_xyz[i] == 0.0):
+            p_dxyz[i] = 0.5 - (hi_xyz[i] + lo_xyz[i]) / 2.0 / p_A
+    return p_A, p_dxyz
+
+
+def view_xcfg(s):
+    if len(s) == 0 or any("v" in a.__dict__ for a in s):
+        return None
+    p_A, p_dxyz = xcfg_box(s)
+    kept = [n for n in (getattr(s, "xcfg", None) or {}).get("auxiliaries", []) if not XCFG_REGEN.match(n)]
+    toks = [exact(p_A)] + [exact(x) for x in numpy.ravel(s.lattice.base)] + [str(len(kept))] + kept
+    for a in s:
+        pos = a.xyz / p_A + p_dxyz
+        U = a.U
+        toks += [a.element] + [exact(x) for x in pos] + [exact(a.occupancy)]
+        toks += [exact(U[0, 0]), exact(U[1, 1]), exact(U[2, 2]), exact(U[0, 1]), exact(U[0, 2]), exact(U[1, 2])]
+        toks += ["1" if s.lattice.isanisotropic(U) else "0"] + [exact(getattr(a, n)) for n in kept]
+    return toks
+
+
+def xcfg_read_diff(model_toks, s1):
+    """Compare the model's read answer with the structure the implementation built."""
+    n, A = int(model_toks[0]), float(model_toks[1])
+    base = [float(x) for x in model_toks[2:11]]
+    naux = int(model_toks[11])
+    names = model_toks[12:12 + naux]
+    rest = model_toks[12 + naux:]
+    if n != len(s1):
+        return "atom count %d vs %d" % (n, len(s1))
+    if names != list((getattr(s1, "xcfg", None) or {}).get("auxiliaries", [])):
+        return "auxiliaries %r vs %r" % (names, getattr(s1, "xcfg", None))
+    for x, y in zip(base, numpy.ravel(s1.lattice.base)):
+        if abs(x - y) > 1e-12 * max(1.0, abs(x)):
+            return "base %r vs %r" % (x, float(y))
+    w = 1 + 3 + naux
+    for k, a in enumerate(s1):
+        row = rest[k * w:(k + 1) * w]
+        if row[0] != a.element:
+            return "atom %d element %r vs %r" % (k, row[0], a.element)
+        f = [float(x) for x in row[1:]]
+        for i in range(3):
+            if abs(A * f[i] - a.xyz[i]) > 1e-12 * max(1.0, abs(a.xyz[i])):
+                return "atom %d xyz[%d] %r vs %r" % (k, i, A * f[i], float(a.xyz[i]))
+        for nm, v in zip(names, f[3:]):
+            real = a.Uisoequiv if nm == "Uiso" else a.Bisoequiv if nm == "Biso" else getattr(a, nm)
+            if abs(v - real) > 1e-12 * max(1.0, abs(v)):
+                return "atom %d %s %r vs %r" % (k, nm, v, float(real))
+    return None
+
+
+def view_cif(s, date=None):
+    import time
+    if "\n" in s.title:
+        return None
+    date = date or "%04i-%02i-%02i" % time.gmtime()[:3]
+    toks = [s.title, date] + [exact(x) for x in (s.lattice.a, s.lattice.b, s.lattice.c, s.lattice.alpha, s.lattice.beta, s.lattice.gamma)]
+    for a in s:
+        U = a.U
+        toks += [a.element] + [exact(x) for x in a.xyz] + [exact(a.Uisoequiv), "1" if s.lattice.isanisotropic(U) else "0", exact(a.occupancy)]
+        toks += [exact(U[0, 0]), exact(U[1, 1]), exact(U[2, 2]), exact(U[0, 1]), exact(U[0, 2]), exact(U[1, 2])]
+    return toks
+
+
+def cif_read_diff(model_toks, s1):
+    cell = [float(x) for x in model_toks[:6]]
+    for x, y in zip(cell, s1.lattice.abcABG()):
+        if x != y:
+            return "cell %r vs %r" % (x, y)
+    rest = model_toks[6:]
+    if len(rest) != 15 * len(s1):
+        return "atom count %d vs %d" % (len(rest) // 15, len(s1))
+    for k, a in enumerate(s1):
+        r = rest[15 * k:15 * (k + 1)]
+        if r[0] != a.label or r[1] != a.element:
+            return "atom %d label/element %r vs %r" % (k, r[:2], (a.label, a.element))
+        for i in range(3):
+            # the implementation reduces the DOUBLE nearest to the printed value into the cell, the model the exact decimal:
+            # they differ by the rounding of that double (<= 1e-16 * |x|, generated |x| < 1e8)
+            dd = abs(float(r[2 + i]) - a.xyz[i])
+            if min(dd, abs(dd - 1.0)) > 1e-8:
+                return "atom %d xyz[%d] %r vs %r" % (k, i, r[2 + i], float(a.xyz[i]))
+        if (r[6] == "1") != bool(a.anisotropy):
+            return "atom %d anisotropy %r vs %r" % (k, r[6], a.anisotropy)
+        if float(r[7]) != a.occupancy:
+            return "atom %d occupancy %r vs %r" % (k, r[7], a.occupancy)
+        if a.anisotropy:
+            if r[8] != "1":
+                return "atom %d: implementation has a tensor, model has none" % k
+            U = a.U
+            for v, w in zip(r[9:], (U[0, 0], U[1, 1], U[2, 2], U[0, 1], U[0, 2], U[1, 2])):
+                if abs(float(v) - w) > 1e-12:
+                    return "atom %d U %r vs %r" % (k, v, float(w))
+        elif abs(float(r[5]) - a.Uisoequiv) > 1e-15:
+            return "atom %d Uiso %r vs %r" % (k, r[5], a.Uisoequiv)
+    return None
+
+
+def cif_tokens_diff(model_toks, text):
+    """PyCifRW as the tokenisation oracle: the key/values and loop rows it extracts from the written text must be
+    the tokens the model's layout tokenizer produces."""
+    import io
+    from CifFile import CifFile
+    from vlib import c04_gen
+    with c04_gen.quiet():
+        cf = CifFile(io.StringIO(text), grammar="auto")
+    blk = cf[list(cf.keys())[0]]
+    it = iter(model_toks)
+    nk = int(next(it))
+    kv = [(next(it), next(it)) for _ in range(nk)]
+    for k, v in kv:
+        if k.lower() not in blk or str(blk[k.lower()]) != v.strip("'"):
+            return "key %s: model %r, PyCifRW %r" % (k, v, blk.get(k.lower()))
+    for loopkey in ("_atom_site_label", "_atom_site_aniso_label"):
+        nc = int(next(it))
+        cols = [next(it) for _ in range(nc)]
+        nr = int(next(it))
+        rows = [[next(it) for _ in range(nc)] for _ in range(nr)]
+        if nc == 0:
+            if loopkey in blk:
+                return "loop %s missing in the model" % loopkey
+            continue
+        lp = blk.GetLoop(loopkey)
+        if [c.lower() for c in cols] != [k.lower() for k in lp.keys()]:
+            return "loop columns %r vs %r" % (cols, list(lp.keys()))
+        real_rows = [list(map(str, r)) for r in zip(*lp.values())]
+        if rows != real_rows:
+            return "loop rows differ: %r vs %r" % (rows[:1], real_rows[:1])
+    return None
+
+
+READ_DIFF = {"xcfg": xcfg_read_diff, "cif": cif_read_diff}
+
+
+def pdb_has_sigmas(s):
+    return any(k in a.__dict__ for a in s for k in ("sigxyz", "sigo", "sigU"))
+
+
+VIEWS = {"xyz": view_xyz, "rawxyz": view_rawxyz, "pdffit": view_pdffit, "discus": view_discus, "pdb": view_pdb, "xcfg": view_xcfg, "cif": view_cif}
+RAW_VIEWS = {"pdffit": lambda s: view_pdffit(s, raw=True), "pdb": view_pdb_read}
 
 
 def _num(tok):
@@ -121,6 +307,8 @@ def loose_token(fmt, i):
     (discus: Bisoequiv = UtoB * (BtoU * B)): compared to 1e-13 relative instead of exactly."""
     if fmt == "discus":
         return i >= 10 and (i - 10) % 5 == 4
+    if fmt == "pdb":      # Cartesian -> fractional -> Cartesian, B -> Uiso -> B, k * 1e-4 * 1e4
+        return i >= 8
     return False
 
 
@@ -131,12 +319,12 @@ def tokens_equal(fmt, model_toks, real_toks):
     if len(model_toks) != len(real_toks):
         return "token count %d vs %d" % (len(model_toks), len(real_toks))
     for i, (m, r) in enumerate(zip(model_toks, real_toks)):
-        if m == r:
+        if m == r or r == "?":
             continue
         fm, fr = _num(m), _num(r)
         if fm is None or fr is None:
             return "token %d: model %r, implementation %r" % (i, m, r)
-        if loose_token(fmt, i) and abs(fm - fr) <= 1e-13 * max(abs(fm), abs(fr)):
+        if loose_token(fmt, i) and abs(fm - fr) <= 1e-12 * max(abs(fm), abs(fr)) + (1e-9 if fmt == "pdb" else 0.0):
             continue
         if fm != fr or (fm == 0 and str(fm) != str(fr)):
             return "token %d: model %s, implementation %s" % (i, m, r)
